@@ -124,7 +124,7 @@ Definition parse_regex_map (t : string) : option expr :=
     | Some (names, r2) =>
       match after_prefix "] as re_lbls_" r2 with
       | Some r3 =>
-        match after_prefix ",  arrayMap(x -> x[length(x)], extractAllGroupsHorizontal(string, " (skip_digits r3) with
+        match after_prefix ",  arrayMap(x -> x[1], extractAllGroupsHorizontal(string, " (skip_digits r3) with
         | Some r4 => match take_quoted r4 with Some (re, _) => Some (regex_map names re) | None => None end
         | None => None end
       | None => None end
